@@ -90,7 +90,7 @@ def race_sig(block):
     secs = re.split(r"\n\n", block)
     tops = []
     for s in secs[:2]:
-        m = re.search(r"^\s+(github\.com/cnotch/ipchub/\S+?)\(", s, re.M)
+        m = re.search(r"^\s+(github\.com/cnotch/ipchub/\S+)\(", s, re.M)
         tops.append(re.sub(r"\.func\d+(\.\d+)*", "", m.group(1).replace("github.com/cnotch/ipchub/", "")) if m else "?")
     return " <-> ".join(sorted(tops))
 
@@ -117,7 +117,7 @@ def first_ipchub_frame(txt):
         return None, None
     head = m.group(1).strip()[:160]
     rest = txt[m.end():]
-    fm = re.search(r"^(github\.com/cnotch/ipchub/\S+?)\(", rest, re.M)
+    fm = re.search(r"^(github\.com/cnotch/ipchub/\S+)\(", rest, re.M)
     frame = fm.group(1).replace("github.com/cnotch/ipchub/", "") if fm else "no-ipchub-frame"
     frame = re.sub(r"\.func\d+(\.\d+)*", "", frame)
     return head, frame
